@@ -25,7 +25,7 @@ CHECKS = {
  'C07': ('cmdspec', 'TLC enumeration of the configuration lattice + real trash-put with operation trace',
          'ChosenDir of Trash.tla is the decision table; TLC enumerates the lattice and every edge is executed; the entry must land in the prescribed directory, created directories must be 0700, the move must be exactly one rename unless both fallback switches are on.', '6 C07'),
  'C08': ('cmdspec', 'TLC invariant InsecureFrozen + transition tests of all five commands on every .Trash state',
-         'InsecureFrozen is checked by TLC on Trash.tla; all five real commands are run on every state of $topdir/.Trash with a populated .Trash/$uid and must leave it as the specification says, trash-list naming the skipped directory.', '6 C08'),
+         'InsecureFrozen is checked by TLC on Trash.tla; all five real commands are run on every state of $topdir/.Trash with a populated .Trash/$uid and must leave it as the specification says, trash-list naming the skipped directory; the same with the trash directories of a second user, with and without --all-users (sandboxed password database); one trash-put paused between two arguments while .Trash becomes insecure, both halves judged by TLC (TrashTrace).', '6 C08'),
  'C09': ('cmdspec', 'TLC-simulated histories replayed with real commands, trash-list compared after every step',
          'ListIsBag is a TLC invariant of Trash.tla; simulated histories are replayed with real commands and after every step real trash-list must print exactly the bag of the specification state; observed steps are validated by TLC (TrashTrace).', '6 C09'),
  'C10': ('cmdspec', 'TLC-generated trash-empty transitions at the DAYS boundary on the real command',
@@ -45,11 +45,11 @@ CHECKS = {
  'C18': ('cmdspec', 'TLC-generated put transitions over link kinds x every spelling, plus simulated round trips',
          'Arguments that are links / dangling links are trashed under every spelling incl. trailing slashes; the payload must be the link itself, targets untouched, one rename; simulated histories restore them.', '6 C18'),
  'C03': ('functions', 'TLC-checked codec laws (TrashInfo.tla) + TLC evaluation of WellFormed / Meaning on bytes written and read back by the real commands',
-         'The codec laws are checked exhaustively by TLC over a 16-byte alphabet; real trash-put writes .trashinfo files for random byte-string locations (every byte 1-255 except /, long names, deep paths, all alphabet paths) and TLC evaluates WellFormed on the written bytes; what trash-list / trash-restore / trash-rm show for those files is checked by TLC against Meaning.', '6 C03'),
+         'The codec laws are checked exhaustively by TLC over a 16-byte alphabet; real trash-put writes .trashinfo files for random byte-string locations (every byte 1-255 except /, long names, deep paths, all alphabet paths) and TLC evaluates WellFormed on the written bytes; what trash-list / trash-restore / trash-rm show for those files is checked by TLC against Meaning; under a virtual clock that advances with every operation TLC checks that each DeletionDate of a several-argument run lies in the window in which its own argument was handled.', '6 C03'),
  'C20': ('functions', 'four-way differential of the readers on generated foreign .trashinfo contents, judged by TLC against Meaning / Expired / RmMatches',
          'Foreign contents from line templates are planted in every kind of trash directory; the path/date trash-list shows, the path/date trash-restore shows, trash-rm on the exact / one-byte-different path and trash-empty DAYS at the date boundary, and the place where a real trash-restore puts the entry, are observed on the real commands and each observation is judged by TLC evaluating the TLA+ operators on the same bytes. One known finding (relative Path in the home trash).', '6 C20'),
  'C19': ('cmdspec', 'TLC invariant JunkIsolation + transition tests of the four readers with malformed neighbours',
-         'JunkIsolation (effect on entries = effect with the malformed ones removed) is a TLC invariant; the four real reading commands are run on every subset of malformed neighbours under a permuted directory order and must reach the specification state.', '6 C19'),
+         'JunkIsolation (effect on entries = effect with the malformed ones removed) is a TLC invariant; the four real reading commands are run on every subset of malformed neighbours under a permuted directory order and must reach the specification state; trash-list --size must list every entry that has a payload.', '6 C19'),
 }
 
 checks = []
